@@ -1,21 +1,21 @@
 // Harness-side specification vocabulary for the exact-lattice obligations (DESIGN 3.5): symbolic
 // small integers, and the mathematical polynomials (determinant, adjugate, matrix products, Hamilton
-// product, rotation by a quaternion, quaternion -> matrix) evaluated in i64.  This is SPEC: written
+// product, rotation by a quaternion, quaternion -> matrix) evaluated in i16.  This is SPEC: written
 // as the textbook definitions, independent of glam's formulas.
 #![allow(dead_code)]
 use crate::vk;
 
 /// symbolic integer in [-b, b]
 #[inline(always)]
-pub fn lat(b: i8) -> i64 {
+pub fn lat(b: i8) -> i16 {
     let i: i8 = vk::any();
     vk::assume(i >= -b && i <= b);
-    i as i64
+    i as i16
 }
 macro_rules! lat_arr {
     ($($name:ident: $n:literal [$($i:tt)*]),*) => {$(
         #[inline(always)]
-        pub fn $name(b: i8) -> [i64; $n] { [$({ let _ = $i; lat(b) }),*] }
+        pub fn $name(b: i8) -> [i16; $n] { [$({ let _ = $i; lat(b) }),*] }
     )*};
 }
 lat_arr!(lat2: 2 [0 1], lat3: 3 [0 1 2], lat4: 4 [0 1 2 3], lat6: 6 [0 1 2 3 4 5], lat9: 9 [0 1 2 3 4 5 6 7 8],
@@ -24,7 +24,7 @@ lat_arr!(lat2: 2 [0 1], lat3: 3 [0 1 2], lat4: 4 [0 1 2 3], lat6: 6 [0 1 2 3 4 5
 macro_rules! to_float {
     ($($name:ident: $t:ty, $n:literal [$($i:tt)*]),*) => {$(
         #[inline(always)]
-        pub fn $name(a: [i64; $n]) -> [$t; $n] { [$(a[$i] as $t),*] }
+        pub fn $name(a: [i16; $n]) -> [$t; $n] { [$(a[$i] as $t),*] }
     )*};
 }
 to_float!(f32x2: f32, 2 [0 1], f32x3: f32, 3 [0 1 2], f32x4: f32, 4 [0 1 2 3], f32x6: f32, 6 [0 1 2 3 4 5], f32x9: f32, 9 [0 1 2 3 4 5 6 7 8],
@@ -34,15 +34,15 @@ to_float!(f32x2: f32, 2 [0 1], f32x3: f32, 3 [0 1 2], f32x4: f32, 4 [0 1 2 3], f
 
 /// the float is exactly this integer
 #[inline(always)]
-pub fn eqi32(f: f32, i: i64) -> bool { f == (i as f32) }
+pub fn eqi32(f: f32, i: i16) -> bool { f == (i as f32) }
 #[inline(always)]
-pub fn eqi64(f: f64, i: i64) -> bool { f == (i as f64) }
+pub fn eqi64(f: f64, i: i16) -> bool { f == (i as f64) }
 
 // ---- column-major integer matrices: entry (r, c) of an n x n matrix is a[c * n + r] ----
 #[inline(always)]
-pub fn det2(a: [i64; 4]) -> i64 { a[0] * a[3] - a[2] * a[1] }
+pub fn det2(a: [i16; 4]) -> i16 { a[0] * a[3] - a[2] * a[1] }
 #[inline(always)]
-pub fn det3(a: [i64; 9]) -> i64 {
+pub fn det3(a: [i16; 9]) -> i16 {
     // Laplace expansion along the first row: sum_c (-1)^c * a(0,c) * minor(0,c)
     let e = |r: usize, c: usize| a[c * 3 + r];
     e(0, 0) * (e(1, 1) * e(2, 2) - e(1, 2) * e(2, 1)) - e(0, 1) * (e(1, 0) * e(2, 2) - e(1, 2) * e(2, 0))
@@ -50,8 +50,8 @@ pub fn det3(a: [i64; 9]) -> i64 {
 }
 /// 3x3 minor of a 4x4 matrix: delete row `dr`, column `dc`
 #[inline(always)]
-pub fn minor4(a: [i64; 16], dr: usize, dc: usize) -> i64 {
-    let mut m = [0i64; 9];
+pub fn minor4(a: [i16; 16], dr: usize, dc: usize) -> i16 {
+    let mut m = [0i16; 9];
     let mut c = 0;
     let mut cc = 0;
     while c < 4 {
@@ -72,17 +72,17 @@ pub fn minor4(a: [i64; 16], dr: usize, dc: usize) -> i64 {
     det3(m)
 }
 #[inline(always)]
-pub fn det4(a: [i64; 16]) -> i64 {
+pub fn det4(a: [i16; 16]) -> i16 {
     a[0] * minor4(a, 0, 0) - a[4] * minor4(a, 0, 1) + a[8] * minor4(a, 0, 2) - a[12] * minor4(a, 0, 3)
 }
 /// adjugate (transpose of the cofactor matrix): adj(A) * A == det(A) * I
 #[inline(always)]
-pub fn adj2(a: [i64; 4]) -> [i64; 4] { [a[3], -a[1], -a[2], a[0]] }
+pub fn adj2(a: [i16; 4]) -> [i16; 4] { [a[3], -a[1], -a[2], a[0]] }
 #[inline(always)]
-pub fn adj3(a: [i64; 9]) -> [i64; 9] {
+pub fn adj3(a: [i16; 9]) -> [i16; 9] {
     let e = |r: usize, c: usize| a[c * 3 + r];
     // cofactor C(r,c) = (-1)^(r+c) * minor(r,c); adj(r,c) = C(c,r)
-    let cof = |r: usize, c: usize| -> i64 {
+    let cof = |r: usize, c: usize| -> i16 {
         let (r0, r1) = if r == 0 { (1, 2) } else if r == 1 { (0, 2) } else { (0, 1) };
         let (c0, c1) = if c == 0 { (1, 2) } else if c == 1 { (0, 2) } else { (0, 1) };
         let m = e(r0, c0) * e(r1, c1) - e(r0, c1) * e(r1, c0);
@@ -91,7 +91,7 @@ pub fn adj3(a: [i64; 9]) -> [i64; 9] {
     [cof(0, 0), cof(0, 1), cof(0, 2), cof(1, 0), cof(1, 1), cof(1, 2), cof(2, 0), cof(2, 1), cof(2, 2)]
 }
 #[inline(always)]
-pub fn adj4_entry(a: [i64; 16], r: usize, c: usize) -> i64 {
+pub fn adj4_entry(a: [i16; 16], r: usize, c: usize) -> i16 {
     // adj(r,c) = cofactor(c,r)
     let m = minor4(a, c, r);
     if (r + c) % 2 == 0 { m } else { -m }
@@ -99,8 +99,8 @@ pub fn adj4_entry(a: [i64; 16], r: usize, c: usize) -> i64 {
 macro_rules! mat_vec {
     ($name:ident, $n:literal, $nn:literal) => {
         #[inline(always)]
-        pub fn $name(a: [i64; $nn], v: [i64; $n]) -> [i64; $n] {
-            let mut out = [0i64; $n];
+        pub fn $name(a: [i16; $nn], v: [i16; $n]) -> [i16; $n] {
+            let mut out = [0i16; $n];
             let mut r = 0;
             while r < $n {
                 let mut c = 0;
@@ -120,8 +120,8 @@ mat_vec!(mv4, 4, 16);
 macro_rules! mat_mat {
     ($name:ident, $n:literal, $nn:literal) => {
         #[inline(always)]
-        pub fn $name(a: [i64; $nn], b: [i64; $nn]) -> [i64; $nn] {
-            let mut out = [0i64; $nn];
+        pub fn $name(a: [i16; $nn], b: [i16; $nn]) -> [i16; $nn] {
+            let mut out = [0i16; $nn];
             let mut c = 0;
             while c < $n {
                 let mut r = 0;
@@ -146,7 +146,7 @@ mat_mat!(mm4, 4, 16);
 // ---- quaternions (x, y, z, w) ----
 /// Hamilton product a * b
 #[inline(always)]
-pub fn hamilton(a: [i64; 4], b: [i64; 4]) -> [i64; 4] {
+pub fn hamilton(a: [i16; 4], b: [i16; 4]) -> [i16; 4] {
     let (ax, ay, az, aw) = (a[0], a[1], a[2], a[3]);
     let (bx, by, bz, bw) = (b[0], b[1], b[2], b[3]);
     [
@@ -157,27 +157,27 @@ pub fn hamilton(a: [i64; 4], b: [i64; 4]) -> [i64; 4] {
     ]
 }
 #[inline(always)]
-pub fn qconj(a: [i64; 4]) -> [i64; 4] { [-a[0], -a[1], -a[2], a[3]] }
+pub fn qconj(a: [i16; 4]) -> [i16; 4] { [-a[0], -a[1], -a[2], a[3]] }
 /// vector part of q * (v, 0) * conj(q)   (== |q|^2 times the rotation of v by q)
 #[inline(always)]
-pub fn qrot(q: [i64; 4], v: [i64; 3]) -> [i64; 3] {
+pub fn qrot(q: [i16; 4], v: [i16; 3]) -> [i16; 3] {
     let r = hamilton(hamilton(q, [v[0], v[1], v[2], 0]), qconj(q));
     [r[0], r[1], r[2]]
 }
 /// column-major 3x3 matrix M(q) with M(q) v == qrot(q, v) for all v (entries are the standard
 /// quadratic forms; for a unit quaternion this is the rotation matrix)
 #[inline(always)]
-pub fn qmat(q: [i64; 4]) -> [i64; 9] {
+pub fn qmat(q: [i16; 4]) -> [i16; 9] {
     let c0 = qrot(q, [1, 0, 0]);
     let c1 = qrot(q, [0, 1, 0]);
     let c2 = qrot(q, [0, 0, 1]);
     [c0[0], c0[1], c0[2], c1[0], c1[1], c1[2], c2[0], c2[1], c2[2]]
 }
 #[inline(always)]
-pub fn norm2(q: [i64; 4]) -> i64 { q[0] * q[0] + q[1] * q[1] + q[2] * q[2] + q[3] * q[3] }
+pub fn norm2(q: [i16; 4]) -> i16 { q[0] * q[0] + q[1] * q[1] + q[2] * q[2] + q[3] * q[3] }
 #[inline(always)]
-pub fn cross3(a: [i64; 3], b: [i64; 3]) -> [i64; 3] {
+pub fn cross3(a: [i16; 3], b: [i16; 3]) -> [i16; 3] {
     [a[1] * b[2] - a[2] * b[1], a[2] * b[0] - a[0] * b[2], a[0] * b[1] - a[1] * b[0]]
 }
 #[inline(always)]
-pub fn dot3(a: [i64; 3], b: [i64; 3]) -> i64 { a[0] * b[0] + a[1] * b[1] + a[2] * b[2] }
+pub fn dot3(a: [i16; 3], b: [i16; 3]) -> i16 { a[0] * b[0] + a[1] * b[1] + a[2] * b[2] }
